@@ -78,7 +78,8 @@ INVARIANTS = ["TypeOK", "PolicyFormsAgree", "ConnectedOnlyIfPolicy", "DeliveredS
               "NothingUnlessConnected", "MirrorKeys", "DiscardOnlyIfTamperedOrNotConnected"]
 WITNESSES = ["WitnessNeverBothConnected", "WitnessNothingDelivered", "WitnessNoTamperDiscard",
              "WitnessNoMixedListFails", "WitnessNoUnsupportedIgnored", "WitnessNoUnsupportedOnlyFails",
-             "WitnessNoDeliveryToHalfOpen", "WitnessNoProfileMismatchFails"]
+             "WitnessNoDeliveryToHalfOpen", "WitnessNoProfileMismatchFails",
+             "WitnessNoUpperNameConnects", "WitnessNoUpperNameBadFails"]
 
 
 def exh_cfg(profiles, **kw):
@@ -340,7 +341,7 @@ def _corrupt(value, r):
 def materialise(fps, peer_der, r):
     """Abstract fingerprint list -> RTCDtlsParameters for the peer certificate `peer_der`."""
     import aiortc.rtcdtlstransport as M
-    known = set(getattr(M, "X509_DIGEST_ALGORITHMS", {}))
+    known = {k.lower() for k in getattr(M, "X509_DIGEST_ALGORITHMS", {})}
     unsup = [n for n in UNSUPPORTED_NAMES if n not in known] or ["x-unknown"]
     out = []
     for f in fps:
@@ -348,7 +349,8 @@ def materialise(fps, peer_der, r):
         v = _digest(peer_der, name)
         if not f["good"]:
             v = _corrupt(v, r)
-        out.append(M.RTCDtlsFingerprint(algorithm=name, value=_recase(v, f["case"], r)))
+        out.append(M.RTCDtlsFingerprint(algorithm=_recase(name, f.get("ncase", "lower"), r),
+                                        value=_recase(v, f["case"], r)))
     return M.RTCDtlsParameters(fingerprints=out)
 
 
@@ -662,12 +664,23 @@ def traffic_script(r, cfg, nsend, allow_close=True):
     return ops
 
 
-def all_fp():
-    return [{"alg": a, "good": g, "case": c} for a in ALGS for g in (True, False) for c in CASES]
+def all_fp(universe="full"):
+    """Fingerprint entries: full = Fp (72), lite = FpLite (40), diag = FpDiag (24) of Dtls.tla."""
+    out = [{"alg": a, "good": g, "case": c, "ncase": n}
+           for a in ALGS for g in (True, False) for c in CASES for n in CASES]
+    if universe == "diag":
+        out = [f for f in out if f["ncase"] == f["case"]]
+    elif universe == "lite":
+        out = [f for f in out if f["ncase"] == f["case"] or f["case"] == "lower"]
+    return out
 
 
-def fp_lists(k):
-    return [list(x) for x in itertools.product(all_fp(), repeat=k)]
+def fp_lists(k, universe="full"):
+    return [list(x) for x in itertools.product(all_fp(universe), repeat=k)]
+
+
+def with_ncase(fps):
+    return [dict(f, ncase=f.get("ncase", "lower")) for f in fps]
 
 
 def prof_lists(profiles):
@@ -687,6 +700,7 @@ def enumerated_jobs(r, profiles, thorough):
     jobs = []
 
     def add(src, fa, fb, pa, pb, role_a, hs=True, nsend=None, kind=None):
+        fa, fb = with_ncase(fa), with_ncase(fb)
         cfg = {"role": {"a": role_a, "b": "server" if role_a == "client" else "client"},
                "fps": {"a": fa, "b": fb}, "profs": {"a": pa, "b": pb}, "hs": hs}
         both = hs and policy_ok(fa) and policy_ok(fb) and set(pa) & set(pb)
@@ -694,26 +708,28 @@ def enumerated_jobs(r, profiles, thorough):
         env = mk_env(r, cfg, kind)
         jobs.append({"src": src, "cfg": cfg, "env": env, "ops": traffic_script(r, cfg, n)})
 
-    b_variants = [GOOD, [{"alg": "sha512", "good": True, "case": "mixed"}, {"alg": "unsupported", "good": False, "case": "lower"}],
-                  [{"alg": "sha384", "good": False, "case": "upper"}]]
-    # every fingerprint list up to length 2 (thorough: 3) on side a, both roles
-    maxlen = 3 if thorough else 2
+    b_variants = [GOOD, [{"alg": "sha512", "good": True, "case": "mixed", "ncase": "upper"},
+                         {"alg": "unsupported", "good": False, "case": "lower", "ncase": "mixed"}],
+                  [{"alg": "sha384", "good": False, "case": "upper", "ncase": "upper"}]]
+    # every fingerprint list on side a: quick = lists <= 2 over FpLite (name case = value case,
+    # plus every name case with a lower-case value), each length-2 list under one role;
+    # thorough = lists <= 2 over the full Fp and lists of length 3 over FpDiag, both roles
+    plan = [(1, "full", True), (2, "full", True), (3, "diag", True)] if thorough else \
+           [(1, "lite", True), (2, "lite", False)]
     i = 0
-    for k in range(1, maxlen + 1):
-        for fa in fp_lists(k):
+    for k, universe, both_roles in plan:
+        for fa in fp_lists(k, universe):
             for role_a in ("client", "server"):
-                if k == 3 and not thorough:
-                    continue
-                if k >= 2 and not thorough and (i % 2):   # quick: half of the length-2 lists per role
-                    i += 1
-                    continue
                 i += 1
+                if not both_roles and (i % 2):
+                    i += 1          # the next list starts with the other role
+                    continue
                 fb = b_variants[i % 3] if i % 4 == 0 else GOOD
                 pa, pb = (full, full[::-1]) if i % 5 else (r.choice(plists), r.choice(plists))
                 add("enum-fp", fa, fb, pa, pb, role_a)
-    # the same on side b for lists up to length 1 (thorough: 2)
-    for k in range(1, maxlen):
-        for fb in fp_lists(k):
+    # the same on side b for lists up to length 1 (thorough: 2) over FpLite
+    for k in range(1, 3 if thorough else 2):
+        for fb in fp_lists(k, "lite"):
             for role_a in ("client", "server"):
                 add("enum-fp-b", GOOD, fb, full[::-1], full, role_a)
     # profile x role matrix: every pair of non-empty preference lists, both roles
@@ -722,7 +738,7 @@ def enumerated_jobs(r, profiles, thorough):
             for role_a in ("client", "server"):
                 add("enum-prof", GOOD, [{"alg": "sha384", "good": True, "case": "lower"}], pa, pb, role_a, nsend=6)
                 if thorough:
-                    add("enum-prof", [{"alg": "sha512", "good": True, "case": "mixed"}],
+                    add("enum-prof", [{"alg": "sha512", "good": True, "case": "mixed", "ncase": "mixed"}],
                         [{"alg": "unsupported", "good": True, "case": "upper"}, {"alg": "sha256", "good": True, "case": "lower"}],
                         pa, pb, role_a, nsend=10)
     # handshake cut at every point, reorder probe on accepted and rejected lists
@@ -949,12 +965,13 @@ def run():
         with cf.ThreadPoolExecutor(max_workers=4) as th:
             # 1. design level: exhaustive TLC + witnesses (threads; each TLC has its own scratch)
             exh_specs = {
-                "fingerprints": exh_cfg(profiles, fa="FpUpTo3" if thorough else "FpUpTo2", ms=1, mt=1),
+                "fingerprints": exh_cfg(profiles, fa="FpUpTo3Diag" if thorough else "FpUpTo2Lite", ms=1, mt=1),
                 "profiles_roles": exh_cfg(profiles, fa="FpRep2", fb="FpRep2", pp="ProfAllPairs", hs="{TRUE, FALSE}",
                                           ms=2 if thorough else 1, mt=1, ca=2 if thorough else 1),
                 "traffic_witnesses": witness_cfg(profiles),
             }
             if thorough:
+                exh_specs["fingerprints_namecase"] = exh_cfg(profiles, fa="FpUpTo2Full", ms=1, mt=1)
                 exh_specs["traffic"] = exh_cfg(profiles, fa="FpRep", fb="FpRep2", pp="ProfRepPairs",
                                                hs="{TRUE, FALSE}", ms=3, mt=2, ca=2)
             tmo = 1200 if thorough else 240
